@@ -8,7 +8,7 @@
 //!   exec-*      valid (schema, document): for every indentation setting, print → parse_and_validate → equal; print again → identical;
 //!   fieldset-*  valid field sets on every composite type: print → parse_and_validate → equal selection set; print again → identical;
 //!   mixed-*     schema + executable in one text: parse_mixed_validate → print both → parse_mixed_validate → equal schema and document.
-use crate::p20::{self, Def};
+use crate::p20;
 use crate::util::*;
 use apollo_compiler::ast::OperationType;
 use apollo_compiler::executable::FieldSet;
@@ -250,6 +250,22 @@ fn fieldset_case(ctx: &mut Ctx, v: &View, ty: &str, text: &str) {
 
 fn mixed_case(ctx: &mut Ctx, schema_src: &str, exec_src: &str, order: usize) {
     let text = match order { 0 => format!("{schema_src}\n{exec_src}"), _ => format!("{exec_src}\n{schema_src}") };
+    mixed_text_case(ctx, text, &[CFGS[0], CFGS[1], CFGS[11], CFGS[16]]);
+}
+
+/// type-system and executable definitions interleaved (both texts have one definition per line)
+fn interleave(r: &mut Rng, a: &str, b: &str) -> String {
+    let (la, lb): (Vec<&str>, Vec<&str>) = (a.lines().filter(|l| !l.trim().is_empty()).collect(), b.lines().filter(|l| !l.trim().is_empty()).collect());
+    let (mut i, mut j, mut out) = (0, 0, String::new());
+    while i < la.len() || j < lb.len() {
+        let take_a = j >= lb.len() || (i < la.len() && r.below(la.len() - i + lb.len() - j) < la.len() - i);
+        if take_a { out.push_str(la[i]); i += 1; } else { out.push_str(lb[j]); j += 1; }
+        out.push('\n');
+    }
+    out
+}
+
+fn mixed_text_case(ctx: &mut Ctx, text: String, cfgs: &[(Option<&str>, usize)]) {
     let input = one_line(&text);
     let (schema, doc) = match catch(|| Parser::new().parse_mixed_validate(text.clone(), "m.graphql")) {
         Err(p) => { ctx.fail("mixed-panic", &input, &p); return; }
@@ -257,7 +273,7 @@ fn mixed_case(ctx: &mut Ctx, schema_src: &str, exec_src: &str, order: usize) {
         Ok(Ok(x)) => x,
     };
     ctx.stat("mixed_valid");
-    for cfg in [CFGS[0], CFGS[1], CFGS[11], CFGS[16]] {
+    for &cfg in cfgs {
         let cfgs = format!("{:?}", cfg);
         let t = format!("{}\n{}", ser_schema(&schema, cfg), ser_doc(&doc, cfg));
         match catch(|| Parser::new().parse_mixed_validate(t.clone(), "r.graphql")) {
@@ -273,18 +289,6 @@ fn mixed_case(ctx: &mut Ctx, schema_src: &str, exec_src: &str, order: usize) {
 }
 
 // ---------------------------------------------------------------- run
-
-fn with_defaults(r: &mut Rng, defs: &mut [Def]) {
-    for d in defs.iter_mut() {
-        if let Def::Op(o) = d {
-            for v in o.vars.iter_mut() {
-                if !r.chance(1, 3) { continue; }
-                let dv = match v.ty.as_str() { "Int" => " = 7", "Boolean!" => " = false", "E" => " = X", "In" => " = {x: 1}", _ => "" };
-                v.ty.push_str(dv);
-            }
-        }
-    }
-}
 
 pub fn run(ctx: &mut Ctx) {
     let mut views = vec![];
@@ -307,7 +311,7 @@ pub fn run(ctx: &mut Ctx) {
     for i in 0..n_gen {
         let clean = i % 4 != 3;
         let mut d = p20::gen_doc(&mut ctx.rng, clean);
-        with_defaults(&mut ctx.rng, &mut d);
+        p20::with_defaults(&mut ctx.rng, &mut d);
         let text = p20::doc_text(&d);
         exec_case(ctx, &views[0], &text, if clean { "gen" } else { "gendirty" });
         let vi = 1 + i % 2;
@@ -338,5 +342,21 @@ pub fn run(ctx: &mut Ctx) {
         mixed_case(ctx, SCHEMA_R, &t, i % 2);
         let d = p20::gen_doc(&mut ctx.rng, true);
         mixed_case(ctx, p20::SCHEMA_A, &p20::doc_text(&d), i % 2);
+        // definitions of both kinds interleaved, every schema of the generator, every indentation setting in turn
+        let mut d = p20::gen_doc(&mut ctx.rng, true);
+        p20::with_defaults(&mut ctx.rng, &mut d);
+        let schema_src = [p20::SCHEMA_A, p20::SCHEMA_C, p20::SCHEMA_B][i % 3];
+        let text = interleave(&mut ctx.rng, schema_src, &p20::doc_text(&d));
+        ctx.stat("mixed_interleaved");
+        mixed_text_case(ctx, text, &[CFGS[i % CFGS.len()], CFGS[(i / 2 + 7) % CFGS.len()]]);
+    }
+    // field sets on the generator's schemas (meta-fields, directives with nested values, inline fragments on unions / interfaces)
+    let n_fs2 = if ctx.thorough { 8_000 } else { 800 };
+    for i in 0..n_fs2 {
+        let ty = ["Query", "A", "U", "I", "B"][i % 5];
+        let t = p20::gen_fieldset(&mut ctx.rng, ty);
+        let text = if ctx.rng.chance(1, 2) { t[1..t.len() - 1].trim().to_string() } else { t };
+        ctx.stat("fieldset_generator_schema_cases");
+        fieldset_case(ctx, &views[if i % 7 == 6 { 2 } else { 0 }], if i % 7 == 6 && ty == "Query" { "Q" } else { ty }, &text);
     }
 }
